@@ -11,7 +11,7 @@
  * as q*T + c with T vanishing on the tuple and c in {0, +-1}, random polynomials, leading coefficients that vanish under
  * the assignment, and a family stressing the root-separation bound of the zero test.
  */
-#define LPV_CASE_TIMEOUT 60
+#define LPV_CASE_TIMEOUT 120
 #include "halg.h"
 #include <assignment.h>
 #include <feasibility_set.h>
@@ -234,7 +234,7 @@ static lp_polynomial_t* conj_coeff(void) {
   }
 }
 static lp_polynomial_t* degenerate_poly(void) {
-  int d = 1 + rnd(3);
+  int d = 1 + rnd(2);       /* degree 3 already takes the library ~20 s */
   lp_polynomial_t* p = P_mul(chance(70) ? P_add(P_var(0, 1), P_var(1, 1)) : P_add(P_mul(P_var(0, 1), P_var(1, 1)), P_const(2)), P_var(3, d));
   for (int k = 0; k < d; ++k) if (chance(75)) p = P_add(p, P_mul(conj_coeff(), k ? P_var(3, k) : P_const(1)));
   return p;
